@@ -222,6 +222,13 @@ func c19CLI(c *vrep.Ctx) {
 				break
 			}
 			gotText := map[string][]string{}
+			seenPath := map[string]bool{}
+			for _, f := range jr {
+				if seenPath[f.Filepath] {
+					msg = fmt.Sprintf("JSON report lists %s more than once (its matches are split over several entries)", filepath.Base(f.Filepath))
+				}
+				seenPath[f.Filepath] = true
+			}
 			for _, f := range jr {
 				for _, k := range f.Classifications {
 					gotText[f.Filepath] = append(gotText[f.Filepath], fmt.Sprintf("%s|%v|%d|%d|%s", k.Name, k.Confidence, k.StartLine, k.EndLine, k.Text))
